@@ -323,3 +323,82 @@ func c18TextOK(s string, enc int) bool {
 	}
 	return true
 }
+
+// c18MaskTag: mask number idx in tag order (an unregistered mask tag beyond).
+func c18MaskTag(idx int) int {
+	var mtags []int
+	for tag := range bitmaskNames {
+		if tag >= 0x420000 {
+			mtags = append(mtags, tag)
+		}
+	}
+	for a := 0; a < len(mtags); a++ {
+		for b := a + 1; b < len(mtags); b++ {
+			if mtags[b] < mtags[a] {
+				mtags[a], mtags[b] = mtags[b], mtags[a]
+			}
+		}
+	}
+	if idx < len(mtags) {
+		return mtags[idx]
+	}
+	return 0x420099
+}
+
+// VerifC18_MaskItem: a mask-typed item (src 0 JSON, 1 XML) whose value is an
+// arbitrary text of vLen bytes — names, numbers, hexadecimal, separators in any
+// mix: if the mask reader accepts it, writing the mask again in encoding enc
+// reads back to the same mask and a second writing is byte-identical.
+func VerifC18_MaskItem(src, idx, vLen, form, enc int) {
+	mtag := c18MaskTag(idx)
+	val := verifNondetString("value", vLen)
+	c18Form(val, form)
+	var r reader
+	if src == 0 {
+		m := map[string]any{"tag": "CompromiseDate", "type": "Integer", "value": val}
+		r = &jsonReader{value: []any{m}}
+	} else {
+		el := xml.StartElement{Name: xml.Name{Local: "CompromiseDate"}}
+		el.Attr = append(el.Attr, xml.Attr{Name: xml.Name{Local: "type"}, Value: "Integer"}, xml.Attr{Name: xml.Name{Local: "value"}, Value: val})
+		r = &xmlReader{r: c18NoMoreXML(), elem: &el}
+	}
+	v, err := r.Bitmask(mtag, c04Tag)
+	if err != nil {
+		return
+	}
+	verifReach("accepted")
+	hop := func(v int32) ([]byte, int32, bool) {
+		var out []byte
+		if enc == 2 {
+			w := newTTLVWriter()
+			w.Bitmask(mtag, c04Tag, v)
+			out = append([]byte(nil), w.Bytes()...)
+			rr, err := newTTLVReader(append([]byte(nil), out...))
+			if err != nil {
+				return out, 0, false
+			}
+			got, err := rr.Bitmask(mtag, c04Tag)
+			return out, got, err == nil
+		}
+		w := c04Writer(enc)
+		w.Bitmask(mtag, c04Tag, v)
+		out = append([]byte(nil), w.Bytes()...)
+		rr, ok := c04Reader(enc, out, c04Tag, TypeInteger)
+		if !ok {
+			return out, 0, false
+		}
+		got, err := rr.Bitmask(mtag, c04Tag)
+		return out, got, err == nil
+	}
+	e1, w1, ok := hop(v)
+	verifAssert("re-encoded item is well-formed and accepted", ok)
+	if !ok {
+		return
+	}
+	verifAssert("same value after the hop", w1 == v)
+	e2, _, ok2 := hop(w1)
+	verifAssert("second hop accepted", ok2)
+	if ok2 {
+		verifAssert("second re-encoding is byte-identical", verifBytesEq(e1, e2))
+	}
+}
